@@ -779,8 +779,54 @@ pub fn run(ctx: &mut Ctx) {
         }
     }
 
+    // 1b. observation (not part of C16's quantifier, never a failure): the library's helper
+    //     satisfiers used WITHOUT the guards are not honest — `(ctx, LockTime)::check_after` compares
+    //     heights only (a final sequence disables the lock time), `(ctx, Sequence)::check_older`
+    //     ignores the transaction version — and `satisfy` then answers `AssemblyFailed`
+    {
+        struct Raw<'a, 'b> {
+            ctx: types::Context<'b>,
+            tx: &'a elements::Transaction,
+        }
+        impl<'a, 'b> Satisfier<'b, Pk> for Raw<'a, 'b> {
+            fn inference_context(&self) -> &types::Context<'b> {
+                &self.ctx
+            }
+            fn check_older(&self, s: elements::Sequence) -> bool {
+                Satisfier::<Pk>::check_older(&(&self.ctx, self.tx.input[0].sequence), s)
+            }
+            fn check_after(&self, l: elements::LockTime) -> bool {
+                Satisfier::<Pk>::check_after(&(&self.ctx, self.tx.lock_time), l)
+            }
+        }
+        for (e, p) in [
+            (EnvSet { lock_time: 100, seq: 0xffff_ffff, version: 2 }, Policy::<Pk>::After(100)),
+            (EnvSet { lock_time: 100, seq: 7, version: 1 }, Policy::<Pk>::Older(7)),
+            (EnvSet { lock_time: 100, seq: 7, version: 2 }, Policy::<Pk>::And { left: Arc::new(Policy::After(100)), right: Arc::new(Policy::Older(7)) }),
+        ] {
+            let env = env_with(e);
+            let got = catch(|| {
+                types::Context::with_context(|ictx| {
+                    let sat = Raw { ctx: ictx, tx: env.tx() };
+                    p.satisfy(&sat, &env).map(|_| ())
+                })
+            });
+            let out = match got {
+                Ok(Ok(())) => "ok",
+                Ok(Err(SatisfierError::Unsatisfiable)) => "unsat",
+                Ok(Err(SatisfierError::AssemblyFailed(_))) => "asmfail",
+                Err(_) => "panic",
+            };
+            ctx.count(&format!("observation:unguarded-helper-satisfier:{out}"));
+            ctx.note(&format!(
+                "observation (outside C16: the satisfier is not honest): unguarded library helper satisfiers, policy `{}`, lockTime={} sequence={:#x} version={} -> satisfy: {}",
+                enc(&p), e.lock_time, e.seq, e.version, out
+            ));
+        }
+    }
+
     // 2. random policies × environment × availability × satisfier kind; sorting of each
-    let iters = ctx.scale(5_000, 60_000);
+    let iters = ctx.scale(5_000, 40_000);
     let all_subsets_every = ctx.scale(120, 60);
     for it in 0..iters {
         let mut r = ctx.rng.fork();
@@ -822,7 +868,7 @@ pub fn run(ctx: &mut Ctx) {
 
     // 3. sorting over a wider alphabet (16 keys, 8 hash images, entropy differing in one byte), deeper
     //    trees, several reorderings of each
-    let iters = ctx.scale(3_000, 40_000);
+    let iters = ctx.scale(3_000, 30_000);
     for it in 0..iters {
         let mut r = ctx.rng.fork();
         let g = GenCfg { nkeys: w.keys.len(), nhashes: w.hashes.len(), env: EnvSet { lock_time: 3, seq: 2, version: 2 } };
